@@ -1292,6 +1292,29 @@ def c10_history(case):
     finally:
         reset_table()
 
+
+
+def c08_history(case):
+    try:
+        if not set_table(case["table_a"]):
+            return ok("table A rejected")
+        kw = dict(compatible=bool(case.get("compatible")), attribute=bool(case.get("attribute")))
+        _dec(case["selfies"], **kw)
+        if not set_table(case["table_b"]):
+            return ok("table B rejected")
+        try:
+            with warnings.catch_warnings():
+                warnings.simplefilter("ignore")
+                sf.decoder(case["selfies"], **kw)
+        except sf.DecoderError:
+            pass
+        except Exception as ex:  # noqa
+            return bad("C08:%s@%s:after-table-change" % (type(ex).__name__, _where(ex)),
+                       "after decoding it under %s and switching to %s, decoder(%r, %s) raised %r" % (_short(case["table_a"]), _short(case["table_b"]), case["selfies"], kw, ex))
+        return ok()
+    finally:
+        reset_table()
+
 # ---------------------------------------------------------------------------
 
 KINDS = {
@@ -1328,6 +1351,7 @@ KINDS = {
     "two_vocab": c15_two_vocab,
     "ring_order": lemma_ring_order,
     "stable_history": c10_history,
+    "decoder_total_history": c08_history,
     "state_fn": lemma_state_fn,
     "ring_step": lemma_ring_step,
 }
